@@ -126,7 +126,7 @@ REQUIRED = {
  'C01':['transfer_conserves','transfer_others_untouched','sweep_moves_exactly','payout_conserves','tie_bank_mutators','tie_minter_before_distributor'],
  'C02':['path_independent','cadence_irrelevant','valid_of_validate','linear_exact','carry_exact','exParams_valid'],
  'C03':['books_after_block','books_after_block_nonvacuous','books_after_block_bridge','bridge_checked_block','allSubOkB_sound','nonnegB_sound','validated_params_books'],
- 'C04':['share_truncation','allocation_conserves','no_main_dest_all_to_states','cumulative_allocation','payout_carry','cumulative_receipts_drift'],
+ 'C04':['share_truncation','allocation_conserves','no_main_dest_all_to_states','cumulative_allocation','payout_carry','cumulative_receipts_drift','faithful_allocation_conserves','distShares_states'],
  'C05':['withdraw_keeps_poolOk','send_keeps_poolOk','withdraw_locked_delta','rejected_noop','createPool_inv','withdrawAll_inv','sendToNew_inv','createVA_same','splitCoins_same','handle_inv','deliver_inv','backed_over_histories','c05_every_reachable_state','inv_implies_registered','inv_genesis'],
  'C06':['locked_nothing','matured_everything','withdraw_twice_total','withdraw_idempotent','query_agrees'],
  'C07':['unlock_exact','orig_over_releases','unlock_exact_nonvacuous'],
@@ -140,7 +140,7 @@ REQUIRED = {
  'C15':['link_write_once','verify_iff','verify_reads_only','tamper_fails'],
  'C16':['splitOne_conserves','four_splits_succeed','migrate_v3_fieldwise','migrate_v2_locked','shift_keeps_amounts','minter_migration_same_schedule','minter_migration_valid','minter_migration_succeeds','legacy_zero_exp_not_migratable','distr_migration_same_shares','tie_upgrade_orchestration'],
  'C17':['split_lineage','send_lineage','chain_lineage','splitCoins_lineage','sendToNew_lineage','other_messages_keep_traces','summary_shape'],
- 'C18':['withdraw_events_sum'],
+ 'C18':['withdraw_events_sum','distribution_events_sum','distShares_sum'],
  'C19':['inflation_zero_before_start','inflation_zero_nominting','inflation_zero_exp_ended','rate_linear','rate_exp_uses_step_amount','exp_interval','lin_interval'],
  'C20':['sig_publish_no_panic','sig_store_no_panic','withdraw_no_panic','tie_handlers'],
 }
